@@ -467,6 +467,7 @@ func runC04(ctx *core.Ctx, idx int) *core.Result {
 	// for ... { against every loop header shape
 	if idx < len(listKinds) {
 		forDotsCase(ctx, idx, res)
+		forWrittenHeaderCase(ctx, idx, res, "C04")
 	}
 	// the schema library's patterns with elisions (elisions on context lines reused on '+' lines, several
 	// elisions per line, elided parameter / result / field lists, nested statement elisions) on generated files
@@ -559,5 +560,62 @@ func forDotsCase(ctx *core.Ctx, idx int, res *core.Result) {
 	semBatch(ctx, idx, res, c, []string{sb.String()}, nil, true, "C04")
 	for _, h := range loopHeaders {
 		res.Sig("for-dots", idx%len(bodies), h)
+	}
+}
+
+// forWrittenHeaderCase: a loop pattern that spells out an init or a post statement around a '...' condition. Whatever
+// such a pattern matches, it is no 'for ... {': a loop whose init or post statement differs from the written one in any
+// token is not an instance and stays as it is (reference-free: the body of every such loop still calls target).
+func forWrittenHeaderCase(ctx *core.Ctx, idx int, res *core.Result, prop string) {
+	pats := []struct{ init, post string }{{"i := 0", "i++"}, {"", "i++"}, {"i := 0", ""}, {"k = 1", "k *= 2"}}
+	p := pats[idx%len(pats)]
+	patch := fmt.Sprintf("@@\nvar x expression\n@@\n for %s; ...; %s {\n-  target(x)\n+  repl(x)\n }\n", p.init, p.post)
+	type hdr struct{ init, cond, post, whole string }
+	hs := []hdr{{"i := 0", "i < n", "i++", ""}, {"i := 1", "i < n", "i++", ""}, {"i := 0", "i < n", "i += 2", ""}, {"j := n", "j > 0", "j--", ""}, {"", "i < n", "i++", ""},
+		{"i := 0", "i < n", "", ""}, {"", "", "", ""}, {"k = 1", "k < 9", "k *= 2", ""}, {"k = 1", "", "k *= 2", ""}, {"i := 0", "", "i++", ""},
+		{"", "", "", "range ch"}, {"", "", "", "i := range 10"}, {"", "", "", "_, v := range vs"}, {"", "", "", "cond()"}, {"", "", "", ""}}
+	var sb strings.Builder
+	sb.WriteString("package p\n\n")
+	var mustStay []bool
+	for i, h := range hs {
+		w := h.whole
+		if w == "" && (h.init != "" || h.cond != "" || h.post != "") {
+			w = h.init + "; " + h.cond + "; " + h.post
+		}
+		fmt.Fprintf(&sb, "func loop%d() {\n\tfor %s {\n\t\ttarget(%d)\n\t}\n}\n\n", i, w, i)
+		mustStay = append(mustStay, h.whole != "" || h.init != p.init || h.post != p.post)
+	}
+	src := sb.String()
+	if !gen.Parses(src) {
+		res.Violate("harness-generator", "forWrittenHeaderCase: generated file does not parse\n"+src, nil)
+		return
+	}
+	runs := applyAPI(patch, []string{src})
+	if cli, _ := applyCLI(ctx, patch, []string{src}); len(cli) == 1 {
+		runs = append(runs, cli[0])
+	}
+	for ri, run := range runs {
+		res.Evals++
+		res.Ob("for-written-header-runs", 1)
+		res.Sig("for-written-header", p.init, p.post, ri)
+		rep := replayFiles(patch, src, run.Out)
+		if run.Pan != "" {
+			res.Violate(prop+"/engine-panic:"+core.PanicSignature(run.Pan), run.Pan, rep)
+			continue
+		}
+		if run.Err != "" || run.Out == "" {
+			continue // the pattern is not accepted, or nothing applies: nothing was rewritten
+		}
+		funcs := strings.Split(run.Out, "\nfunc ")
+		if len(funcs) != len(hs)+1 {
+			res.Violate(prop+"/wrong-rewrite/for-written-header", fmt.Sprintf("%d functions in, %d out", len(hs), len(funcs)-1), rep)
+			continue
+		}
+		for i := range hs {
+			if mustStay[i] && !strings.Contains(funcs[i+1], fmt.Sprintf("target(%d)", i)) {
+				res.Violate(prop+"/false-positive/for-written-header", fmt.Sprintf("pattern 'for %s; ...; %s {' rewrote the body of loop%d, whose header differs from it: %s", p.init, p.post, i, core.Trunc(funcs[i+1], 160)), rep)
+				break
+			}
+		}
 	}
 }
